@@ -207,6 +207,13 @@ type Inc struct {
 	handlers map[string]func(*SimStream) // libp2p stream handlers (stub host)
 	Ctx      context.Context
 	Cancel   context.CancelFunc
+	offline  bool // a local block miss returns not-found at once (like an offline IPFS node)
+}
+
+func (i *Inc) SetOffline(b bool) {
+	i.Node.W.mu.Lock()
+	i.offline = b
+	i.Node.W.mu.Unlock()
 }
 
 func PeerIDFor(i int) peer.ID {
